@@ -225,6 +225,16 @@ func c03Session(s *c03Scn, enc *json.Encoder) verdict {
 			case "commit-persist":
 				r, oerr = d.Commit(opoptions.WithCommitConfirmed(), opoptions.WithCommitConfirmedPersist("tok-1"))
 				inner, given = `<commit><confirmed/><persist>tok-1</persist></commit>`, ""
+			case "commit-persist-id":
+				// the last step of a persistent confirmed commit: the id alone, no <confirmed/>
+				r, oerr = d.Commit(opoptions.WithCommitConfirmedPersistID("tok-1"))
+				inner, given = `<commit><persist-id>tok-1</persist-id></commit>`, ""
+			case "commit-all":
+				r, oerr = d.Commit(opoptions.WithCommitConfirmedPersist("tok-2"), opoptions.WithCommitConfirmTimeout(60), opoptions.WithCommitConfirmed())
+				inner, given = `<commit><confirmed/><confirm-timeout>60</confirm-timeout><persist>tok-2</persist></commit>`, ""
+			case "commit-timeout":
+				r, oerr = d.Commit(opoptions.WithCommitConfirmTimeout(30))
+				inner, given = `<commit><confirm-timeout>30</confirm-timeout></commit>`, ""
 			case "discard":
 				r, oerr = d.Discard()
 				inner, given = `<discard-changes/>`, ""
